@@ -83,3 +83,5 @@ INFO = dict(
     outside=["non-linearly recursive grammars", "prefixes beyond the bound"],
     assumptions=["weights >= 0", "pivots > 0 (finite total weight)"],
 )
+
+INFO["technique"] = 'symbolic execution of prefix_weight / prefix_grammar / derivative with z3 real weights; z3 proves equality with a closed-form sum over all completions (Cramer); bounded'
